@@ -13,8 +13,7 @@ PLAN = dict(
     assumptions=SC_TSO + ["tbb::task::suspend is called only from inside tasks (task_group tasks, parallel_for bodies), as in oneTBB's own tests; never from plain code of an external thread",
                           "ucontext coroutines run under the controlled scheduler unmodified (swapcontext itself is not a decision point; every atomic around it is)",
                           "the statistic that classifies a resume as early reads suspend_point_type::m_stack_state through src/tbb/scheduler_common.h; verdicts never depend on it",
-                          "arena / coroutine tear-down at process exit is not part of the case",
-                          "TSO schedules that keep a thread off the baton with a non-empty store buffer for a long time (a directed stall of >= 5000 steps, or a pct priority schedule) are run under SC and counted as excluded: they reach a lost spawned task (publication of the task pool delayed past another thread's whole scan-and-sleep sequence, arena.h advertise_new_work<work_spawned> has deliberately no fence, and the recalled owner leaves the arena with the task in its pool) which is a store-buffer residency no hardware shows; `drive --witness` keeps them in"],
+                          "arena / coroutine tear-down at process exit is not part of the case"],
     floor=dict(quick=400, thorough=12000),
     tiers=dict(
         quick=[det("rel", H, "cs-rel", 16, 80, 4, tso=True, time_cap=28),
